@@ -31,15 +31,32 @@ PRIMS = {"add_sum2": "bits", "add_sum3": "bits", "add_sum_n_bits": "bits", "add_
 
 
 class Rec:
-    def __init__(self, name, ins, outs):
-        self.name, self.ins, self.outs = name, ins, outs  # [(relative weight, label)]
+    def __init__(self, name, ins, outs, cuts=()):
+        self.name, self.ins, self.outs, self.cuts = name, ins, outs, list(cuts)  # [(relative weight, label)]; extra cut labels
+
+
+DEEP_PRIMS = {"add_mdfa": "mdfa", "add_simplified_mdfa": "smdfa", "add_stockmeyer_block": "stock", "add_sum2": "bits", "add_sum3": "bits",
+              "add_sum2_aig": "bits", "add_sum3_aig": "bits", "add_gate_from_tt": "inline"}
+
+
+def Y(x, xy):
+    """The bit a pair (x, x^y) stands for besides x: y = x ^ xy (it is the output of no gate)."""
+    return ("Y", x, xy)
 
 
 class LinRecorder:
-    def __init__(self):
-        self.records, self.depth, self.saved = [], 0, []
+    def __init__(self, deep=False):
+        self.records, self.depth, self.saved, self.deep = [], 0, [], deep
+        self.alias = {}  # Y(a, a^b) is the real gate b
+        self.pair_gates = []  # (a, b, xy) to be verified: xy == a ^ b
 
     def __enter__(self):
+        if self.deep:
+            for name, kind in DEEP_PRIMS.items():
+                orig = getattr(S, name)
+                self.saved.append((S, name, orig))
+                setattr(S, name, self._wrap_deep(orig, name, kind))
+            return self
         for mod in (M, SQ, S):
             for name, kind in PRIMS.items():
                 if mod is S and name != "add_sum_n_bits":
@@ -55,6 +72,45 @@ class LinRecorder:
         for mod, name, orig in self.saved:
             setattr(mod, name, orig)
         return False
+
+    def _wrap_deep(self, orig, name, kind):
+        def wrapper(circuit, *args):
+            if self.depth:
+                return orig(circuit, *args)
+            self.depth += 1
+            try:
+                out = orig(circuit, *args)
+            finally:
+                self.depth -= 1
+            if kind == "inline":
+                a, b, op = args
+                if op == "0110":
+                    self.alias[Y(a, out)] = b
+                    self.alias.setdefault(Y(b, out), a)
+                    self.pair_gates.append((a, b, out))
+                elif op == "0010":
+                    self.records.append(Rec("pair->bit+carry", [(0, a), (0, Y(a, b))], [(0, b), (1, out)]))
+                elif op == "0000":
+                    self.records.append(Rec("zero", [], [(0, out)], cuts=[a, b]))
+                else:
+                    self.records.append(Rec(f"unrecognised inline gate {op}", [(0, a), (0, b)], [(0, out)]))
+                return out
+            ins = list(args[0])
+            if kind == "mdfa":
+                z, x1, xy1, x2, xy2 = ins
+                rec = Rec(name, [(0, z), (0, x1), (0, Y(x1, xy1)), (0, x2), (0, Y(x2, xy2))], [(0, out[0]), (1, out[1]), (1, Y(out[1], out[2]))])
+            elif kind == "smdfa":
+                x1, xy1, x2, xy2 = ins
+                rec = Rec(name, [(0, x1), (0, Y(x1, xy1)), (0, x2), (0, Y(x2, xy2))], [(0, out[0]), (1, out[1]), (1, Y(out[1], out[2]))])
+            elif kind == "stock":
+                x1, x2, x23 = ins
+                rec = Rec(name, [(0, x1), (0, x2), (0, Y(x2, x23))], [(0, out[0]), (1, out[1])])
+            else:
+                rec = Rec(name, [(0, l) for l in ins], list(enumerate(out)))
+            self.records.append(rec)
+            return out
+
+        return wrapper
 
     def _wrap(self, orig, name, kind):
         def wrapper(circuit, *args, **kw):
@@ -82,10 +138,17 @@ class LinRecorder:
         return wrapper
 
 
+def _labels(entry):
+    return entry[1:] if isinstance(entry, tuple) else (entry,)
+
+
 def block_key(c, rec):
     """Gate-level structure of a recorded block, independent of labels."""
     pos = {}
-    for w, l in rec.ins:
+    for w, e in rec.ins:
+        for l in _labels(e):
+            pos.setdefault(l, len(pos))
+    for l in rec.cuts:
         pos.setdefault(l, len(pos))
     ids, items = {}, []
 
@@ -100,30 +163,38 @@ def block_key(c, rec):
         items.append((g.gate_type.name, ops))
         return ("g", ids[l])
 
-    outs = tuple((lev, visit(l)) for lev, l in rec.outs)
-    return (tuple((w, pos[l]) for w, l in rec.ins), tuple(items), outs)
+    outs = tuple((lev, tuple(visit(l) for l in _labels(e))) for lev, e in rec.outs)
+    return (rec.name, tuple((w, tuple(pos[l] for l in _labels(e))) for w, e in rec.ins), tuple(items), outs)
 
 
 def check_block(p, c, rec, timeout_ms):
     cuts = {}
-    for w, l in rec.ins:
+    for w, e in rec.ins:
+        for l in _labels(e):
+            cuts.setdefault(l, z3.Bool(f"blk_{len(cuts)}"))
+    for l in rec.cuts:
         cuts.setdefault(l, z3.Bool(f"blk_{len(cuts)}"))
-    terms = _eval(c, cuts, [l for _, l in rec.outs])
+    out_labels = list(dict.fromkeys(l for _, e in rec.outs for l in _labels(e)))
+    tmap = dict(zip(out_labels, _eval(c, cuts, out_labels)))
+
+    def term(e, env):
+        return z3.Xor(env[e[1]], env[e[2]]) if isinstance(e, tuple) else env[e]
+
     top = max([w for w, _ in rec.ins] + [lev for lev, _ in rec.outs] + [0])
     W = top + len(rec.ins).bit_length() + len(rec.outs).bit_length() + 2
-    lhs = gencommon.weighted_sum([(t, lev) for t, (lev, _) in zip(terms, rec.outs)], W)
-    rhs = gencommon.weighted_sum([(cuts[l], w) for w, l in rec.ins], W)
+    lhs = gencommon.weighted_sum([(term(e, tmap), lev) for lev, e in rec.outs], W)
+    rhs = gencommon.weighted_sum([(term(e, cuts), w) for w, e in rec.ins], W)
     r, _ = p.check([lhs != rhs], timeout_ms=timeout_ms, label=f"L1 {rec.name}/{len(rec.ins)}")
     return r
 
 
-def run_generator(kind, mode, n, m, big_endian):
+def run_generator(kind, mode, n, m, big_endian, deep=False):
     from checks import c08
 
     c = Circuit.bare_circuit(n + (m if kind == "mul" else 0), prefix="in")
     a = list(c.inputs)[:n]
     b = list(c.inputs)[n:] if kind == "mul" else a
-    with LinRecorder() as rec:
+    with LinRecorder(deep=deep) as rec:
         if kind == "mul":
             res = c08._invoke(dict(kind="mul", mode=mode, big_endian=big_endian), c, [a, b])
         else:
@@ -131,20 +202,13 @@ def run_generator(kind, mode, n, m, big_endian):
     res = list(res)
     if big_endian:
         a, b, res = a[::-1], b[::-1], res[::-1]
-    return c, a, b, res, rec.records
+    return c, a, b, res, rec
 
 
-def conservation(p, kind, mode, n, m, big_endian=False, block_timeout_ms=120000, lin_timeout_ms=600000):
-    """Returns (problems, stats, witness) -- witness = (a_value, b_value) when L2 produced a model."""
-    c, a, b, res, records = run_generator(kind, mode, n, m, big_endian)
-    square = kind != "mul"
-    N = len(res)
-    probs, stats = [], {"blocks": len(records), "block_classes": 0, "products": 0, "result_bits": N, "gates": len(c.gates)}
-    if not records and N and max(n, m) > 1 and min(n, m) > 1:
-        probs.append("no summation primitive was recorded: the generator is not built from the recorded blocks")
-    # ---- L1
+def blocks_exact(p, c, recorder, probs, stats, block_timeout_ms):
+    """L1 for every recorded block (one query per structural class) and for the pair-forming XOR gates."""
     seen = {}
-    for rec in records:
+    for rec in recorder.records:
         key = block_key(c, rec)
         if key not in seen:
             seen[key] = check_block(p, c, rec, block_timeout_ms)
@@ -154,9 +218,69 @@ def conservation(p, kind, mode, n, m, big_endian=False, block_timeout_ms=120000,
         if seen[key] != "unsat":
             probs.append(f"block {rec.name} over {len(rec.ins)} bits: L1 inconclusive")
     stats["block_classes"] = len(seen)
+    if recorder.pair_gates:
+        # every (a, a^b) pair really holds a^b (one query per gate type/operand pattern)
+        kinds = {}
+        for a_, b_, xy in recorder.pair_gates:
+            kinds.setdefault((c.gates[xy].gate_type.name, tuple(c.gates[xy].operands) == (a_, b_), a_ == b_), (a_, b_, xy))
+        for a_, b_, xy in kinds.values():
+            cuts = {a_: z3.Bool("pa"), b_: z3.Bool("pb")}
+            t, = _eval(c, cuts, [xy])
+            r, _ = p.check([t != z3.Xor(cuts[a_], cuts[b_])], label="pair gate")
+            if r != "unsat":
+                probs.append(f"the gate forming the pair ({a_}, {xy}) is not {a_} xor {b_}")
+        stats["pairs"] = len(recorder.pair_gates)
+
+
+class LinSystem:
+    """0/1 integer variable per label (and per virtual pair bit), one linear equation per recorded block."""
+
+    def __init__(self, recorder):
+        self.rec, self.cons, self.val, self.n = recorder, [], {}, 0
+
+    def bit(self, name):
+        v = z3.Int(name)
+        self.cons.append(z3.And(v >= 0, v <= 1))
+        return v
+
+    def plain_outputs(self):
+        out = set()
+        for r in self.rec.records:
+            own = {l for _, e in r.ins for l in ([e] if not isinstance(e, tuple) else [])}
+            out |= {e for _, e in r.outs if not isinstance(e, tuple) and e not in own}
+        return out
+
+    def consumed_plain(self):
+        return [e for r in self.rec.records for _, e in r.ins if not isinstance(e, tuple)] + [b for b in self.rec.alias.values()]
+
+    def value(self, e):
+        if isinstance(e, tuple) and e in self.rec.alias:
+            return self.value(self.rec.alias[e])
+        if e not in self.val:
+            self.n += 1
+            self.val[e] = self.bit(f"V_{self.n}")
+        return self.val[e]
+
+    def add_blocks(self):
+        for r in self.rec.records:
+            self.cons.append(z3.Sum([self.value(e) * (1 << lev) for lev, e in r.outs]) == z3.Sum([self.value(e) * (1 << w) for w, e in r.ins]))
+
+
+def conservation(p, kind, mode, n, m, big_endian=False, block_timeout_ms=120000, lin_timeout_ms=600000, deep=False):
+    """Returns (problems, stats, witness) -- witness = (a_value, b_value) when L2 produced a model."""
+    c, a, b, res, recorder = run_generator(kind, mode, n, m, big_endian, deep=deep)
+    records = recorder.records
+    square = kind != "mul"
+    N = len(res)
+    probs, stats = [], {"blocks": len(records), "block_classes": 0, "products": 0, "result_bits": N, "gates": len(c.gates)}
+    if not records and N and max(n, m) > 1 and min(n, m) > 1:
+        probs.append("no summation primitive was recorded: the generator is not built from the recorded blocks")
+    # ---- L1
+    blocks_exact(p, c, recorder, probs, stats, block_timeout_ms)
     # ---- classify glue labels (consumed or returned, produced by no block)
-    produced = {l for r in records for _, l in r.outs if l not in {x for _, x in r.ins}}
-    used = [l for r in records for _, l in r.ins] + list(res)
+    sys_ = LinSystem(recorder)
+    produced = sys_.plain_outputs()
+    used = sys_.consumed_plain() + list(res)
     glue = [l for l in dict.fromkeys(used) if l not in produced]
     A = {l: z3.Bool(f"a{i}") for i, l in enumerate(a)}
     B = A if square else {l: z3.Bool(f"b{i}") for i, l in enumerate(b)}
@@ -165,7 +289,7 @@ def conservation(p, kind, mode, n, m, big_endian=False, block_timeout_ms=120000,
     ia = {l: i for i, l in enumerate(a)}
     ib = {l: i for i, l in enumerate(b)}
     Pint, Aint, Bint = {}, {}, {}
-    cons = []
+    cons = sys_.cons
 
     def bit(d, key, name):
         if key not in d:
@@ -190,7 +314,7 @@ def conservation(p, kind, mode, n, m, big_endian=False, block_timeout_ms=120000,
             cons.extend([v <= a_int(j), v <= b_int(i), v >= a_int(j) + b_int(i) - 1])
         return Pint[(j, i)]
 
-    val = {}
+    val = sys_.val
     terms = _eval(c, prim, glue) if glue else []
     for l, t in zip(glue, terms):
         g = c.gates[l]
@@ -227,11 +351,8 @@ def conservation(p, kind, mode, n, m, big_endian=False, block_timeout_ms=120000,
             probs.append(f"gate {l} = {g.gate_type.name}{tuple(g.operands)} feeds the compression but is neither a partial product, an operand bit nor zero")
             v = bit({}, l, f"U_{len(val)}")
         val[l] = v
-    for l in produced:
-        val[l] = bit({}, l, f"O_{len(val)}")
     # ---- L2
-    for rec in records:
-        cons.append(z3.Sum([val[l] * (1 << lev) for lev, l in rec.outs]) == z3.Sum([val[l] * (1 << w) for w, l in rec.ins]))
+    sys_.add_blocks()
     if square:
         rhs = z3.Sum([a_int(i) * (1 << (2 * i)) for i in range(n)] + [p_int(j, i) * (1 << (i + j + 1)) for j in range(n) for i in range(j + 1, n)])
     else:
@@ -245,11 +366,13 @@ def conservation(p, kind, mode, n, m, big_endian=False, block_timeout_ms=120000,
             balance[l] = balance.get(l, 0) - 1
     for l in res:
         balance[l] = balance.get(l, 0) - 1
+    for l in recorder.alias.values():
+        balance[l] = balance.get(l, 0) - 1
     absw = _absolute_weights(records, val, Pint, Aint, square)
     high = [(l, k) for l, k in balance.items() if k > 0 and l in produced and absw.get(l, -1) >= N]
     stats["left_over_high_carries"] = len(high)
     D = z3.Sum([val[l] * (k << (absw[l] - N)) for l, k in high]) if high else z3.IntVal(0)
-    lhs = z3.Sum([val[l] * (1 << i) for i, l in enumerate(res)]) if res else z3.IntVal(0)
+    lhs = z3.Sum([sys_.value(l) * (1 << i) for i, l in enumerate(res)]) if res else z3.IntVal(0)
     s = z3.Solver()
     s.set("timeout", lin_timeout_ms)
     s.add(*cons)
@@ -293,7 +416,7 @@ def _absolute_weights(records, val, Pint, Aint, square):
     while pending and progress:
         progress, rest = False, []
         for rec in pending:
-            base = next((absw[l] - w for w, l in rec.ins if l in absw), None)
+            base = next((absw[l] - w for w, l in rec.ins if not isinstance(l, tuple) and l in absw), None)
             if base is None:
                 rest.append(rec)
                 continue
@@ -323,3 +446,67 @@ def concrete_product(kind, mode, n, m, big_endian, av, bv):
     if big_endian:
         out = out[::-1]
     return sum(int(v) << i for i, v in enumerate(out)), len(out)
+
+
+def sum_conservation(p, case, block_timeout_ms=120000, lin_timeout_ms=600000, drop_block=None):
+    """C07: a summation generator at a size far beyond the direct bit-vector query.  Every inner block of the
+    real generator (MDFA, simplified MDFA, Stockmeyer block, half/full adders, the gates that form and dissolve
+    (x, x^y) pairs) is recorded and proved exact (L1); one integer query decides
+    sum 2^lev*out == sum 2^w*in from the block equations (L2).  Returns (problems, stats, witness assignment)."""
+    from checks import c07
+
+    widths = case["widths"]
+    c = Circuit.bare_circuit(sum(widths), prefix="in")
+    labs = list(c.inputs)
+    operands, k = [], 0
+    for w in widths:
+        operands.append(labs[k:k + w])
+        k += w
+    with LinRecorder(deep=True) as recorder:
+        outs, ins, flags = c07._invoke(case, c, operands)
+    probs, stats = [], {"blocks": len(recorder.records), "block_classes": 0, "gates": len(c.gates), "inputs": len(ins), "outputs": len(outs)}
+    blocks_exact(p, c, recorder, probs, stats, block_timeout_ms)
+    sys_ = LinSystem(recorder)
+    produced = sys_.plain_outputs()
+    stray = [l for l in dict.fromkeys(sys_.consumed_plain() + [l for _, l in outs]) if l not in produced and l not in labs]
+    if stray:
+        probs.append(f"gates {stray[:3]} feed the compression but come from no recorded block")
+    if drop_block is not None and recorder.records:
+        del recorder.records[drop_block]  # canary: without one block equation the identity must not follow
+    sys_.add_blocks()
+    lhs = z3.Sum([sys_.value(l) * (1 << lev) for lev, l in outs]) if outs else z3.IntVal(0)
+    rhs = z3.Sum([sys_.value(l) * (1 << w) for w, l in ins]) if ins else z3.IntVal(0)
+    s = z3.Solver()
+    s.set("timeout", lin_timeout_ms)
+    s.add(*sys_.cons)
+    s.add(lhs != rhs)
+    import time
+    t0 = time.time()
+    r = str(s.check())
+    p.solver_s += time.time() - t0
+    p.queries["unsat" if r == "unsat" else "sat" if r == "sat" else "unknown"] += 1
+    witness = None
+    if r == "sat":
+        mod = s.model()
+        witness = {l: bool(mod.eval(sys_.value(l), model_completion=True).as_long()) for l in labs}
+        probs.append("the bits and carries are not conserved: some bit is lost, duplicated or carried into the wrong level")
+    elif r != "unsat":
+        probs.append("L2 inconclusive")
+    return probs, stats, witness
+
+
+def concrete_sum(case, assign_by_index):
+    """Evaluates the really generated summation circuit on one assignment (list of bools by input position)."""
+    from checks import c07
+
+    widths = case["widths"]
+    c = Circuit.bare_circuit(sum(widths), prefix="in")
+    labs = list(c.inputs)
+    operands, k = [], 0
+    for w in widths:
+        operands.append(labs[k:k + w])
+        k += w
+    outs, ins, flags = c07._invoke(case, c, operands)
+    assign = dict(zip(labs, assign_by_index))
+    vals = gencommon.concrete_values(c, assign, [l for _, l in outs])
+    return sum(int(bool(vals[l])) << lev for lev, l in outs), sum(int(assign[l]) << w for w, l in ins)
